@@ -14087,6 +14087,9 @@ func (l *Lowerer) lowerTextureCall(name string, args []parser.Expr, target *[]ir
 	switch name {
 	case "textureSample":
 		// textureSample(t, s, coord) or textureSample(t, s, coord, offset)
+		if len(args) < 3 {
+			return 0, fmt.Errorf("textureSample requires at least 3 arguments")
+		}
 		return l.lowerTextureSample(args, target, ir.SampleLevelAuto{})
 
 	case "textureSampleBias":
